@@ -209,6 +209,29 @@ def sessions_agree(model_ans, impl_ans):
     return True
 
 
+def sessions_agree_strict(model_ans, impl_ans):
+    """the search model mirrors move ordering, killers, PV hints and the table exactly, so on the unchanged code model and engine
+    agree on EVERY depth's score and on the best move; used only in the thorough tier (a harmless reordering of equal moves breaks
+    it and is then reported as a broken correspondence without failing input)"""
+    return model_ans == project_session(impl_ans)
+
+
+def deep_strict_stream(ctx, plans, table, n):
+    if ctx.tier != 'thorough':
+        return
+    for p in pick_positions(ctx, n):
+        npieces = sum(1 for ch in p.split('_')[0] if ch.isalpha())
+        if npieces > 8:
+            continue
+        idx = table.add(p, [])
+        pl = Plan('deep-search-model-equality')
+        pl.strict = True
+        pl.pos(p, [], idx)
+        pl.go(['depth', ctx.rng.pick(['4', '5'])])
+        pl.go(['depth', '3'])
+        plans.append(pl)
+
+
 def build_cases(ctx, plans, table):
     table.resolve()
     follow = [pl for pl in plans if getattr(pl, 'follow', False)]
@@ -231,7 +254,8 @@ def build_cases(ctx, plans, table):
             # expectation comes from a corpus validated by the verified evaluator: the (slow) search model is not run
             cases.append(Case(pl.request(), pl.stream, model=None, oracle=session_oracle(pl, table)))
         else:
-            cases.append(Case(pl.request(), pl.stream, oracle=session_oracle(pl, table), agree=sessions_agree))
+            cases.append(Case(pl.request(), pl.stream, oracle=session_oracle(pl, table),
+                              agree=sessions_agree_strict if getattr(pl, 'strict', False) else sessions_agree))
     return cases
 
 
@@ -1445,7 +1469,8 @@ def register(PROPS):
                             lambda c, pl, t: tt_stream(c, pl, t, c.scale(40, 600)),
                             lambda c, pl, t: multi_cycle_stream(c, pl, t, c.scale(10, 300)),
                             lambda c, pl, t: descending_stream(c, pl, t, c.scale(40, 800)),
-                            lambda c, pl, t: pv_follow_stream(c, pl, t, c.scale(40, 800))], minimax=True,
+                            lambda c, pl, t: pv_follow_stream(c, pl, t, c.scale(40, 800)),
+                            lambda c, pl, t: deep_strict_stream(c, pl, t, 300)], minimax=True,
                            extra_post=lambda ctx, cs, impl: tt_post()(ctx, cs, impl) + pv_follow_post(ctx, cs, impl))
     PROPS['C08'] = dict(modules=['Inkayaku.Props.C08', 'Inkayaku.Props.C08Sim', 'Inkayaku.Props.C08Transp', 'Inkayaku.Props.C16Pv'], theorems=['Inkayaku.C08Transp.' + n for n in 'transp13 transp22 sameDraft_le3 hashInj_of_noCollision_le3 go_eq_spec_le3'.split()] + ['Inkayaku.C08Sim.' + n for n in 'quiescence_sim repetition_inert fuel_adequate negamax_node_sim negamax_eq_spec go_eq_spec go_eq_spec_le2'.split()] + ['Inkayaku.C16Pv.mate_pv'] + ['Inkayaku.C08.' + n for n in 'quiescence_clamp quiescence_ok ab_ok root_exact order_irrelevant best_move_optimal ab_tt_ok root_exact_tt engine_order_is_permutation search_eq_mm specValue_eq_mm specValue_order_irrelevant specBestMoves_eq_optimal search_best_move_optimal mate_found mate_real'.split()], cases=c08c, post=c08p, anchors=ENGINE_ANCHORS)
     c09c, c09p = make_prop([lambda c, pl, t: interrupt_stream(c, pl, t, c.scale(24, 300), c.scale(90, 250)),
